@@ -8,7 +8,7 @@ CORR_NAME = "input and output binaries executed side by side by node's WebAssemb
 ASSUMPTIONS = [
     "Model/Sem.v is an abstract big-step semantics of structured operator forests, parametric in the semantics of the individual operators; the equivalence theorem assumes that an operator's semantics is invariant under the consistent renumbering of indices (the interface to the WebAssembly semantics) and that return/unreachable never fall through",
     "the normal form the theorem is about is tied to the code by C03 (emitted body = normal form of the parsed body) and to the bytes by flat_nf_rt",
-    "Model/SemCore.v is a hand-written concrete semantics of 34 integer-core operators with exact label records; it is tied to V8 by this run (results, traps, globals on generated functions) and instantiates the abstract theorem (c01_integer_core_instance)",
+    "Model/SemCore.v is a hand-written concrete semantics of 98 integer / memory operators with exact label records; it is tied to V8 by this run (results, traps, globals on generated functions) and instantiates the abstract theorem (c01_integer_core_instance)",
     "execution is observed with V8 (node 20) on generated modules of the subset it can instantiate (one plain 32-bit memory; relaxed SIMD behind a flag; no multi-memory/memory64/shared memory); generated loops never branch back and tail calls are acyclic so that every call terminates; a real loop, br_table, call_indirect and state-carrying calls are covered by hand-written modules",
 ]
 WHICH = ("out", "gc")
@@ -20,7 +20,7 @@ def core_correspondence(ctx, thorough, search):
     out = os.path.join(ctx.work, ("search" if search else "corr") + "_core")
     shutil.rmtree(out, ignore_errors=True)
     n = 1500 if thorough else 150
-    rc, o, dt = core.sh([core.vh(), "c01core", out, str(ctx.seed + (77 if search else 0)), str(n)], timeout=1200)
+    rc, o, dt = core.sh([core.vh(), "c01core", out, str(ctx.seed + (77 if search else 0)), str(n), "ext"], timeout=1200)
     if rc != 0:
         return [{"error": "core generator failed", "out": o[-600:]}], [], {}
     idx = json.load(open(os.path.join(out, "index.json")))
@@ -36,7 +36,7 @@ def core_correspondence(ctx, thorough, search):
             body = v["r"][3:]
             return "CROk [%s]" % "; ".join(t[1:] for t in body.split(",")) if body else "CROk []"
         return "CRTrap" if v["r"].startswith("trap:") else None
-    lines, ov, ncalls, ntraps = [], [], 0, 0
+    lines, ov, ncalls, ntraps, trapk = [], [], 0, 0, {}
     for c in idx["cases"]:
         calls = []
         for x in sorted(by.get(c["id"], []), key=lambda q: q["k"]):
@@ -49,9 +49,11 @@ def core_correspondence(ctx, thorough, search):
                 continue
             ncalls += 1
             ntraps += e == "CRTrap"
-            calls.append("([%s]%%Z, %s, %s, %s)" % ("; ".join("(%s)" % a["v"] for a in c["calls"][x["k"]]), e, x["in"]["g0"][1:], x["in"]["g1"][1:]))
-        lines.append("{| cc_tys := %s; cc_params := [%s]; cc_locals := [%s]; cc_results := [%s]; cc_g0 := (%s)%%Z; cc_g1 := (%s)%%Z; cc_body := %s; cc_calls := [%s] |}" % (
-            c["tys"], "; ".join(c["params"]), "; ".join(c["locals"]), "; ".join(c["results"]), c["g0"], c["g1"], c["body"], "; ".join(calls)))
+            if e == "CRTrap":
+                trapk[x["in"]["r"][5:40]] = trapk.get(x["in"]["r"][5:40], 0) + 1
+            calls.append("([%s]%%Z, %s, %s, %s, %s, %s)" % ("; ".join("(%s)" % a["v"] for a in c["calls"][x["k"]]), e, x["in"]["g0"][1:], x["in"]["g1"][1:], x["in"].get("memsum", "0"), x["in"].get("pages", "0")))
+        lines.append("{| cc_tys := %s; cc_params := [%s]; cc_locals := [%s]; cc_results := [%s]; cc_g0 := (%s)%%Z; cc_g1 := (%s)%%Z; cc_pages := %s; cc_maxpages := %s; cc_body := %s; cc_calls := [%s] |}" % (
+            c["tys"], "; ".join(c["params"]), "; ".join(c["locals"]), "; ".join(c["results"]), c["g0"], c["g1"], c.get("pages", 0), c.get("maxpages", 0), c["body"], "; ".join(calls)))
     head = "From Coq Require Import List NArith ZArith String. Import ListNotations.\nFrom WV Require Import Gen.Ops Model.Common Model.IR Model.ParseSpec Run.SemCoreRun.\nOpen Scope N_scope.\nDefinition cases : list corecase := [\n"
     per = 40
     for k in range(0, len(lines), per):
@@ -63,7 +65,7 @@ def core_correspondence(ctx, thorough, search):
                 f.write(head + body + "\n].\nEval vm_compute in (List.map check_core_lax cases).\n")
     results, errors = core.coq_eval(out, "cases_core_*.v")
     dis = [{"file": f, "coq_error": m[-400:]} for f, m in errors.items()]
-    names = {41: "result differs from V8", 42: "final globals differ from V8", 43: "interpreter stuck", 44: "result stack ill-typed or too short", 45: "out of fuel"}
+    names = {41: "result differs from V8", 42: "final globals differ from V8", 43: "interpreter stuck", 44: "result stack ill-typed or too short", 45: "out of fuel", 46: "final memory differs from V8", 47: "memory size differs from V8"}
     neval = 0
     for f, codes in results.items():
         neval += len(codes)
@@ -74,8 +76,9 @@ def core_correspondence(ctx, thorough, search):
     lax_diff = sum(1 for codes in lax.values() for cd in codes if cd != 0)
     cov = {"functions": len(lines), "calls_compared_with_v8": ncalls, "trapping_calls": ntraps, "evaluated_in_coq": neval,
            "of_the_first_%d_functions_a_machine_without_label_records_gets_wrong" % min(per, len(lines)): lax_diff,
-           "generator": {k: idx.get(k) for k in ("operators", "loops", "branches", "dead_ops", "walrus_failures")},
-           "rule": "generated functions over the 34 operators Model/SemCore.v interprets (i32 / i64 arithmetic with wrap-around, comparisons, shifts, div / rem with traps, wrap / extend, locals, globals, drop, select) inside block / loop / if / br / br_if / br_table / return / unreachable, with nops, dead code, counter-bounded REAL loops, multi-value block types and branches taken with surplus values above the label height; 3 argument vectors per function, a fresh instance per call; V8's result bit patterns, trap verdict and final globals vs. the Coq interpreter (run_core, exact labels); input vs walrus's output compared as well"}
+           "generator": {k: idx.get(k) for k in ("operators", "loops", "branches", "dead_ops", "memory_ops", "walrus_failures")},
+           "trap_kinds_seen_in_v8": trapk,
+           "rule": "generated functions over the 98 operators Model/SemCore.v interprets (i32 / i64 arithmetic with wrap-around, signed and unsigned comparisons, shifts, rotations, clz / ctz / popcnt, signed and unsigned div / rem with their traps, wrap / extend / sign-extension, loads and stores of every width on one linear memory with bounds traps, memory.size / memory.grow, locals, globals, drop, select) inside block / loop / if / br / br_if / br_table / return / unreachable, with nops, dead code, counter-bounded REAL loops, multi-value block types and branches taken with surplus values above the label height; 3 argument vectors per function, a fresh instance per call; V8's result bit patterns, trap verdict, final globals, a checksum of the final memory and its size vs. the Coq interpreter (run_core, exact labels); input vs walrus's output compared as well"}
     return dis, ov, cov
 
 
